@@ -7,6 +7,8 @@
 package main
 
 import (
+	"os/exec"
+	"sync"
 	"encoding/json"
 	"flag"
 	"fmt"
@@ -113,6 +115,8 @@ func defaultInits(pkgDir string, extra []string) map[string]bool {
 	return want
 }
 
+var crossDumpDir string // set by cmdCheck in the thorough tier
+
 func explore(l *loaded, h HarnessCfg, params map[string]int64, deadline time.Duration, verbose bool) (*symexec.Result, error) {
 	f, _, _, err := findHarness(l, h.Pkg, h.Func)
 	if err != nil {
@@ -149,6 +153,7 @@ func explore(l *loaded, h HarnessCfg, params map[string]int64, deadline time.Dur
 		EagerTables: h.EagerTables,
 		Verbose:     verbose,
 		InitPkgs:    initPkgs,
+		DumpDir:     crossDumpDir,
 	}
 	if w := os.Getenv("GOSYM_WORKERS"); w != "" {
 		cfg.Workers, _ = strconv.Atoi(w)
@@ -243,6 +248,7 @@ func tailS(s []string, n int) []string {
 // ------------------------------------------------------------------ check
 
 type harnessRun struct {
+	cross          *crossResult
 	cfg            HarnessCfg
 	params         map[string]int64
 	res            *symexec.Result
@@ -499,7 +505,17 @@ func cmdCheck(args []string) int {
 			tmo = 300
 		}
 		hr := &harnessRun{cfg: h, params: params}
+		if *tier == "thorough" || os.Getenv("GOSYM_CROSS") != "" {
+			crossDumpDir, _ = os.MkdirTemp("", "gosym-smt2-")
+		}
 		hr.res, hr.err = explore(l, h, params, time.Duration(tmo)*time.Second, *verbose)
+		if crossDumpDir != "" {
+			if hr.res != nil {
+				hr.cross = crossCheck(crossDumpDir, hr.res.DumpVerdicts)
+			}
+			os.RemoveAll(crossDumpDir)
+			crossDumpDir = ""
+		}
 		runs = append(runs, hr)
 		if hr.err != nil {
 			fmt.Printf("INCONCLUSIVE property=%s harness=%s %v\n", prop, h.Func, hr.err)
@@ -534,6 +550,13 @@ func cmdCheck(args []string) int {
 		for _, lbl := range hr.cfg.Reach {
 			if r.Reach["R:"+lbl] == 0 && r.Reach["A:"+lbl] == 0 {
 				msg := fmt.Sprintf("INCONCLUSIVE property=%s harness=%s vacuous=%s (label reached on no feasible path)", prop, hr.cfg.Func, lbl)
+				fmt.Println(msg)
+				notes = append(notes, msg)
+			}
+		}
+		if hr.cross != nil {
+			for _, d := range hr.cross.Disagreements {
+				msg := fmt.Sprintf("INCONCLUSIVE property=%s harness=%s solver disagreement: %s", prop, hr.cfg.Func, d)
 				fmt.Println(msg)
 				notes = append(notes, msg)
 			}
@@ -647,4 +670,83 @@ func cmdReplay(args []string) int {
 	}
 	fmt.Println("not reproduced on this tree")
 	return 0
+}
+
+// crossResult: sampled property obligations re-decided by two other solvers.
+type crossResult struct {
+	Files         int      `json:"obligations_dumped"`
+	Z3NewAgree    int      `json:"z3_5_1_agree"`
+	Cvc5Agree     int      `json:"cvc5_agree"`
+	Z3NewUnknown  int      `json:"z3_5_1_unknown_or_timeout"`
+	Cvc5Unknown   int      `json:"cvc5_unknown_or_timeout"`
+	Disagreements []string `json:"disagreements"`
+	WallS         float64  `json:"wall_s"`
+}
+
+func runSolverFile(bin []string, file string) string {
+	cmd := exec.Command(bin[0], append(bin[1:], file)...)
+	out, _ := cmd.CombinedOutput()
+	for _, line := range strings.Split(string(out), "\n") {
+		line = strings.TrimSpace(line)
+		if line == "sat" || line == "unsat" {
+			return line
+		}
+	}
+	return "unknown"
+}
+
+func crossCheck(dir string, verdicts map[int]string) *crossResult {
+	t0 := time.Now()
+	cr := &crossResult{}
+	files, _ := filepath.Glob(filepath.Join(dir, "ob*.smt2"))
+	sort.Strings(files)
+	type job struct {
+		file string
+		k    int
+	}
+	jobs := make(chan job)
+	var mu sync.Mutex
+	var wg sync.WaitGroup
+	for w := 0; w < 8; w++ {
+		wg.Add(1)
+		go func() {
+			defer wg.Done()
+			for j := range jobs {
+				want := verdicts[j.k]
+				if want != "sat" && want != "unsat" {
+					continue
+				}
+				a := runSolverFile([]string{"z3-new", "-T:60"}, j.file)
+				b := runSolverFile([]string{"cvc5", "--tlimit=60000"}, j.file)
+				mu.Lock()
+				cr.Files++
+				switch {
+				case a == want:
+					cr.Z3NewAgree++
+				case a == "unknown":
+					cr.Z3NewUnknown++
+				default:
+					cr.Disagreements = append(cr.Disagreements, fmt.Sprintf("%s: z3 4.8.12 says %s, z3 5.1 says %s", filepath.Base(j.file), want, a))
+				}
+				switch {
+				case b == want:
+					cr.Cvc5Agree++
+				case b == "unknown":
+					cr.Cvc5Unknown++
+				default:
+					cr.Disagreements = append(cr.Disagreements, fmt.Sprintf("%s: z3 4.8.12 says %s, cvc5 says %s", filepath.Base(j.file), want, b))
+				}
+				mu.Unlock()
+			}
+		}()
+	}
+	for _, f := range files {
+		var k int
+		fmt.Sscanf(filepath.Base(f), "ob%05d.smt2", &k)
+		jobs <- job{f, k}
+	}
+	close(jobs)
+	wg.Wait()
+	cr.WallS = time.Since(t0).Seconds()
+	return cr
 }
